@@ -163,6 +163,15 @@ def ackOldCcCost (s : AckSt) (f : AckFrame) : Option Nat :=
 
 def ackOldRjCost (f : AckFrame) : Option Nat := (f.iter).map fun rs => (pnsDesc rs).length
 
+/-- UNCHANGED dispatcher (no validation; both first consumers visit every acknowledged packet number):
+outcome and iterations up to the point where the frame is rejected / the handler fails. -/
+def handleAckOld (s : AckSt) (f : AckFrame) : Out Unit × Nat :=
+  match f.iter with
+  | none => (.panic, 0)           -- dev profile: `attempt to subtract with overflow` inside the first consumer
+  | some rs =>
+    let c := (if s.cc.isEmpty then 0 else (pnsDesc rs).length) + (pnsDesc rs).length
+    if ¬ SentFrames.updateLargestOk s.sj f.largest then (.err .protocolViolation, c) else (.ok (), c + (pnsDesc rs).length)
+
 /-! ## packet number arrival (`decode_pn` → `on_rcvd_pn`) -/
 
 /-- `decode_pn` with the FIXED gap test, then `on_rcvd_pn`; cells = records appended by `IndexDeque::insert`. -/
@@ -182,20 +191,31 @@ def handlePn (fixed : Bool) (s : RcvdJournal.State) (e : Pn.PacketNumber) (elic 
 /-! ## NEW_CONNECTION_ID / RETIRE_CONNECTION_ID / set_limit -/
 
 open GmQuic.Cid in
+/-- ids held by the cells (`allocated_cids`): `arrange_idle_cid` may retire all but the newest of a cell -/
+def allocTotal (s : Remote) : Nat := (s.cells.map (·.alloc.length)).sum
+
+open GmQuic.Cid in
+/-- RETIRE_CONNECTION_ID frames `retire_prior_to(tomb)` queues for the numbers `ready_cells.offset()..tomb`
+(upper bound: the applied ones are retired through their cells) -/
+def retireQueued (s : Remote) (tomb : Nat) : Nat := tomb - s.roff
+
+open GmQuic.Cid in
 /-- `recv_new_cid_frame`; `fixed` adds the sequence-gap test in front of the insert.
-cells = table growth + RETIRE_CONNECTION_ID frames queued; iters = tables walked (drain, count, arrange). -/
+cells = table growth + RETIRE_CONNECTION_ID frames queued (upper bound); iters = tables walked (insert, drain,
+count of active ids, `arrange_idle_cid`). -/
 def handleNewCid (fixed : Bool) (s : Remote) (seq rpt : Nat) (cid : Cid) : Out Remote × Cost :=
   if seq - rpt > s.limit then (.err .connectionIdLimit, Cost.one)
   else if seq < s.coff then (.ok s, Cost.one)
   else if fixed ∧ seq - (s.coff + s.cdq.length) > max maxSeqGap s.limit then (.err .connectionIdLimit, Cost.one)
   else
     let grow := s.insertCost seq
-    let walk := s.cdq.length + grow + s.ready.length + s.pending.length + 1
+    let c : Cost := ⟨s.cdq.length + grow + s.ready.length + s.pending.length + 1,
+                     grow + retireQueued s rpt + allocTotal s⟩
     match Remote.recvNewCid true s seq rpt cid with
-    | .errLimit s' => (.err .connectionIdLimit, ⟨walk, grow + (s'.frames.length - s.frames.length)⟩)
+    | .errLimit _ => (.err .connectionIdLimit, c)
     | .discarded => (.ok s, Cost.one)
-    | .accepted s' => (.ok s', ⟨walk, grow + (s'.frames.length - s.frames.length)⟩)
-    | .panic _ => (.panic, ⟨walk, grow⟩)
+    | .accepted s' => (.ok s', c)
+    | .panic _ => (.panic, c)
 
 open GmQuic.Cid in
 /-- `recv_retire_cid_frame` (C14's `Local.retire`, fixed error kind); one id issued at most. -/
@@ -341,7 +361,7 @@ def step (st : St) : Frame → Out St × Cost
 /-- state already held, in cells -/
 def sizeAck (s : AckSt) : Nat := s.cc.length + s.rj.cells.length + s.rj.incl.length + s.sj.recs.length
 def sizeRcid (s : Cid.Remote) : Nat :=
-  s.cdq.length + s.ready.length + s.pending.length + (s.coff - s.roff) + s.limit
+  s.cdq.length + s.ready.length + s.pending.length + (s.coff - s.roff) + s.limit + allocTotal s
 def size (st : St) : Nat :=
   sizeAck st.ack + sizeRcid st.rcid + st.lcid.dq.length + st.crypto.segs.length
 
